@@ -11,7 +11,7 @@ import json, sys
 p, name, res = sys.argv[1:4]
 meta = json.load(open('/tmp/seed/keep/%s/_seed/meta.json' % p))
 conf = json.load(open('/tmp/seed/keep/%s/%s.confirm.json' % (p, p)))
-out = dict(property=p, breaks=meta.get("summary"), files=meta.get("files"), needs=meta.get("needs"),
+out = dict(property=p.rstrip('b'), breaks=meta.get("summary"), files=meta.get("files"), needs=meta.get("needs"),
            confirmed_by_me=dict(demo_exit_on_original=conf["demo_rc_original"], demo_exit_with_change=conf["demo_rc_changed"],
                                 suite_passed_with_change=conf["suite_passed"], baseline_tests_missing=conf["baseline_missing"],
                                 how="tools_seed_confirm.sh in the sub-agent's scratch worktree: demo on stashed/unstashed tree, full pinned suite with the change applied, pass-set compared with BASELINE.json stable_pass"),
